@@ -434,10 +434,13 @@ class Lic:
                 continue
             if g is not None and j in g[3]:
                 bit = g[3][j]
-                if env is None:
-                    env = self.fl.env_at(e)
-                bv = self.fl.eval_bv(args[g[2]], env)
-                cond = bv.bits[bit]
+                if g[2] is None:
+                    cond = TRUE if g[4].get(j) else FALSE     # forwarding overload with a constant mask
+                else:
+                    if env is None:
+                        env = self.fl.env_at(e)
+                    bv = self.fl.eval_bv(args[g[2]], env)
+                    cond = bv.bits[bit]
                 # a line object asked for what it was not built with writes nothing
                 okey = None
                 if 'obj' in n:
